@@ -1,6 +1,7 @@
 import QR.Model.Svg
 import QR.Spec.Svg
 import QR.Proofs.Svg
+import QR.Proofs.SourceTie
 /-
 C13 - SVG factories: each factory draws exactly one correctly placed shape per dark module and none for light modules,
 each shape centred on its module's cell and not larger than the cell.
@@ -68,5 +69,11 @@ example :
 /-- the hypothesis `num ≤ den` cannot be dropped: a ratio of 2 gives an uncentred, too large shape -/
 example : Spec.shapesOK [[true]] 1 0 1
     ((svgDoc .image ⟨.square, 2, 1⟩ ⟨.square, 2, 1⟩ [[true]] 1 0 1).shapes.map Proofs.Svg.blobOf) = false := by decide
+
+/-! ### tie to the source: the model's expressions are the ones translated from the current Python AST (T2) -/
+
+/-- `BaseImage.is_eye` as it stands in the source is the model's `isEye` -/
+theorem C13_source_is_eye (width row col : Nat) : Gen.Code.is_eye width row col = isEye width row col :=
+  QR.SourceTie.isEye_eq width row col
 
 end QR.Props
